@@ -36,6 +36,7 @@ def walk(desc, observe=None, n_strategies=1, strategy_kw=None):
             # while the call sleeps its latency on the pool thread, the main loop processes the next update of some market
             w.on_sleep = lambda secs: r.hooks["book"](rng.choice(r.hooks["open"])) if r.hooks["open"] else None
         try:
+            w.executor.propagate = True
             w.executor.run(i)
         except Exception as e:  # noqa: BLE001
             import traceback
